@@ -81,7 +81,7 @@ private:
 };
 
 // ------------------------------------------------------------------------------------------------ real pattern build
-constexpr size_t BIGN = 192;
+constexpr size_t BIGN = 2304;   // harness-side capacity of the real automaton type (a{1000} needs 2000 states)
 using BigDfa = rgx::dfa<BIGN>;
 struct Built { bool ok = false; bool threw = false; bool bounds = false; std::string what; size_t states = 0; long predicted = -1; bool analyzer_ok = false; bool too_big = false; };
 
@@ -265,6 +265,24 @@ static void run_c03() {
                 if ((idx & 255) == 0 && elapsed() > cfg.deadline) { deadline_hit = true; return; }
                 check_pattern(ap, pools[pi].atoms, root);
             });
+        }
+    }
+    // one-dimensional sweep (not exhaustive): repetition counts of two, three and four digits, on shapes outside the known merge defect
+    {
+        const Pool& P = pools.back();   // atoms a, b, c
+        for (int n : {13, 20, 64, 99, 100, 101, 123, 128, 200, 255, 256, 257, 300, 512, 999, 1000}) {
+            for (int shape = 0; shape < 6; ++shape) {
+                if ((idx++ % cfg.nshards) != cfg.shard || deadline_hit) continue;
+                rx::AstPool ap; int a = ap.leaf(0), b = ap.leaf(1), c = ap.leaf(2); int root = -1;
+                if (shape == 0) root = ap.un(rx::REP, a, n);                                                                 // a{n}
+                else if (shape == 1) root = ap.un(rx::REP, ap.un(rx::GROUP, ap.bin(rx::CAT, a, b)), n);                       // (ab){n}
+                else if (shape == 2) root = ap.bin(rx::CAT, ap.un(rx::REP, ap.un(rx::GROUP, ap.bin(rx::ALT, a, b)), n), c);   // (a|b){n}c
+                else if (shape == 3) { if (n > 300) continue; root = ap.bin(rx::CAT, ap.un(rx::REP, a, n), ap.un(rx::REP, b, n)); }   // a{n}b{n}
+                else if (shape == 4) { if (n > 64) continue; root = ap.un(rx::REP, ap.un(rx::GROUP, ap.un(rx::REP, a, n)), 12); }      // (a{n}){12}
+                else { if (n > 300) continue; root = ap.bin(rx::ALT, ap.un(rx::REP, a, n), ap.bin(rx::CAT, b, ap.un(rx::REP, c, n))); }   // a{n}|bc{n}
+                ctr["C03.large_count_patterns"]++;
+                check_pattern(ap, P.atoms, root);
+            }
         }
     }
 }
@@ -505,8 +523,9 @@ template<class P> static void run_termset(P& p, const std::vector<TermSpec>& ts,
             } else {
                 // statement grammar with recovery (C10 only): every term value that reaches a functor must carry its true position,
                 // and every message must be prefixed with the true position of the term it is about
+                std::vector<int> lines(in.size() + 1), cols(in.size() + 1); { int l = 1, c = 1; for (size_t k = 0; k <= in.size(); ++k) { lines[k] = l; cols[k] = c; if (k < in.size()) { if (in[k] == '\n') { ++l; c = 1; } else ++c; } } }
                 for (auto& t : g_toks) {
-                    int line = 1, col = 1; for (int k = 0; k < t.off; ++k) { if (in[k] == '\n') { ++line; col = 1; } else ++col; }
+                    int line = lines[t.off], col = cols[t.off];
                     if (line != t.line || col != t.col) { add_viol("C10", "wrong-source-point", subject + " | stmt grammar | " + oc.name, in, "term at offset " + std::to_string(t.off) + " reported at [" + std::to_string(t.line) + ":" + std::to_string(t.col) + "], true position [" + std::to_string(line) + ":" + std::to_string(col) + "]"); break; }
                 }
                 // messages: "[l:c] PARSE: Syntax error: Unexpected 'X'" - the position must be that of a term start (or end of input after skipping) consistent with the reference tokenizer
@@ -517,7 +536,8 @@ template<class P> static void run_termset(P& p, const std::vector<TermSpec>& ts,
                     sg.lhs[2] = 0; sg.n[2] = 3; sg.rhs[2][0] = 0; sg.rhs[2][1] = E; sg.rhs[2][2] = T0 + 2; sg.lhs[3] = 1; sg.n[3] = 1; sg.rhs[3][0] = T0; sg.lhs[4] = 1; sg.n[4] = 1; sg.rhs[4][0] = T0 + 1;
                     sg.finish(); sl = ref::build_lr1(sg, ref::analyse(sg), false); if (!sl.conflict_free()) { std::fprintf(stderr, "HARNESS ERROR: statement grammar not LR(1)\n"); std::exit(2); } }
                 std::vector<ref::Tok> rtoks; for (auto& t : ex.toks) rtoks.push_back(ref::Tok{t.term, t.off, t.len});
-                ref::Run run = ref::drive(sg, ref::RefTable{sl}, rtoks, 4000, !ex.ok);
+                ref::Run run = ref::drive(sg, ref::RefTable{sl}, rtoks, 4000 + 20 * (int)rtoks.size(), !ex.ok);
+                if (run.horizon) { std::fprintf(stderr, "HARNESS ERROR: reference driver hit its step limit\n"); std::exit(2); }
                 std::ostringstream want; static const char* tnames[3] = {big0, big1, big2};
                 int eline = 1, ecol = 1; { size_t endp = in.size(); for (size_t k = 0; k < endp; ++k) { if (in[k] == '\n') { ++eline; ecol = 1; } else ++ecol; } }
                 for (size_t k = 0; k < run.err_tok.size(); ++k) {
@@ -599,6 +619,25 @@ static void run_c10() {
     for (auto& ts : sets) for (int gk = 0; gk < 2; ++gk) {
         if ((idx++ % cfg.nshards) != cfg.shard) continue;
         if (gk == 0) run_termset(*g_list, ts, inputs, true, 0); else run_termset(*g_stmt, ts, inputs, true, 1);
+    }
+    {
+        // one-dimensional sweep (not exhaustive): columns and line numbers around 2^8, 2^16 and 2^17, reached by whitespace runs, by newline runs,
+        // by a long lexeme and by many terms on one line; term values and both kinds of message must still carry the true position
+        std::vector<std::string> longs;
+        for (size_t n : {255u, 256u, 65534u, 65535u, 65536u, 65537u, 70000u, 131072u, 200000u}) {
+            longs.push_back(std::string(n, ' ') + "x");  longs.push_back(std::string(n, '\n') + "x;");
+            longs.push_back(std::string(n, ' ') + "?");  longs.push_back(std::string(n, '\n') + " ?");          // Unexpected character far right / far down
+            longs.push_back("q" + std::string(n, 'a') + ";x");                                                 // a term after a lexeme of n+1 bytes
+            longs.push_back("q" + std::string(n / 2, '\n') + ";" + std::string(n / 2, '\n') + "x");            // a multi-line lexeme, then more lines
+            std::string many; for (size_t i = 0; i < n / 2; ++i) many += "x;"; longs.push_back(many + "x");      // n terms on one line
+            longs.push_back(std::string(n, '\n') + "x x");                                                     // syntax error (statement grammar) far down
+        }
+        { std::vector<std::string> mine; for (size_t k = 0; k < longs.size(); ++k) if ((long)(k % cfg.nshards) == cfg.shard) mine.push_back(longs[k]); longs.swap(mine); }
+        long saved = g_step_limit; g_step_limit = 50000000;
+        int keep = cfg.opt;
+        run_termset(*g_list, sets[0], longs, true, 0);
+        run_termset(*g_stmt, sets[0], longs, true, 1);
+        g_step_limit = saved; cfg.opt = keep; ctr["C10.long_position_sweep_inputs"] += (long)longs.size() * 2;
     }
 }
 
